@@ -38,7 +38,12 @@ Inductive instr :=
 | ISetRend (fid : Z) (h : nat)   (* LiveRender.set_renderable *)
 | IStart | IStop         (* Live.start / Live.stop: read _started, choose the rest *)
 | ISetStarted (b : bool) | IPushHook | IPopHook
-| IResetShape.           (* Live.stop: self._live_render._shape = None *)
+| IResetShape            (* Live.stop: self._live_render._shape = None *)
+| ISetDone               (* _RefreshThread.stop(): self.done.set() *)
+| IJoin (t : tid)        (* Thread.join(): BLOCKS until thread t has finished *)
+| ILoop                  (* _RefreshThread.run: `while not self.done.wait(..)`; leaving the loop ends the thread *)
+| ICheckDone             (* inside the tick, under the live lock: if not self.done.is_set(): refresh() *)
+| IStopA (rt : tid).     (* Live.stop of an auto-refreshing display whose refresh thread is rt *)
 
 Record tstate := mkT {
   prog : list instr;
@@ -55,7 +60,9 @@ Record shared := mkS {
   shape : option nat;          (* LiveRender._shape (height) *)
   rend : Z * nat;              (* LiveRender.renderable: (id, rows) *)
   started : bool;              (* Live._started *)
-  hooks : nat                  (* len(Console._render_hooks) *)
+  hooks : nat;                 (* len(Console._render_hooks) *)
+  done : bool;                 (* _RefreshThread.done *)
+  fin : list tid               (* threads whose run() has returned (what join() waits for) *)
 }.
 
 Record state := mkSt { sh : shared; th : tid -> tstate }.
@@ -64,16 +71,18 @@ Definition getl (s : shared) (l : lockid) :=
   match l with LLive => lkL s | LConsole => lkC s | LRecord => lkR s end.
 Definition setl (s : shared) (l : lockid) (v : option (tid * nat)) : shared :=
   match l with
-  | LLive => mkS (file s) (record s) v (lkC s) (lkR s) (shape s) (rend s) (started s) (hooks s)
-  | LConsole => mkS (file s) (record s) (lkL s) v (lkR s) (shape s) (rend s) (started s) (hooks s)
-  | LRecord => mkS (file s) (record s) (lkL s) (lkC s) v (shape s) (rend s) (started s) (hooks s)
+  | LLive => mkS (file s) (record s) v (lkC s) (lkR s) (shape s) (rend s) (started s) (hooks s) (done s) (fin s)
+  | LConsole => mkS (file s) (record s) (lkL s) v (lkR s) (shape s) (rend s) (started s) (hooks s) (done s) (fin s)
+  | LRecord => mkS (file s) (record s) (lkL s) (lkC s) v (shape s) (rend s) (started s) (hooks s) (done s) (fin s)
   end.
-Definition set_file s v := mkS v (record s) (lkL s) (lkC s) (lkR s) (shape s) (rend s) (started s) (hooks s).
-Definition set_record s v := mkS (file s) v (lkL s) (lkC s) (lkR s) (shape s) (rend s) (started s) (hooks s).
-Definition set_shape s v := mkS (file s) (record s) (lkL s) (lkC s) (lkR s) v (rend s) (started s) (hooks s).
-Definition set_rend s v := mkS (file s) (record s) (lkL s) (lkC s) (lkR s) (shape s) v (started s) (hooks s).
-Definition set_started s v := mkS (file s) (record s) (lkL s) (lkC s) (lkR s) (shape s) (rend s) v (hooks s).
-Definition set_hooks s v := mkS (file s) (record s) (lkL s) (lkC s) (lkR s) (shape s) (rend s) (started s) v.
+Definition set_file (s : shared) v := mkS v (record s) (lkL s) (lkC s) (lkR s) (shape s) (rend s) (started s) (hooks s) (done s) (fin s).
+Definition set_record (s : shared) v := mkS (file s) v (lkL s) (lkC s) (lkR s) (shape s) (rend s) (started s) (hooks s) (done s) (fin s).
+Definition set_shape (s : shared) v := mkS (file s) (record s) (lkL s) (lkC s) (lkR s) v (rend s) (started s) (hooks s) (done s) (fin s).
+Definition set_rend (s : shared) v := mkS (file s) (record s) (lkL s) (lkC s) (lkR s) (shape s) v (started s) (hooks s) (done s) (fin s).
+Definition set_started (s : shared) v := mkS (file s) (record s) (lkL s) (lkC s) (lkR s) (shape s) (rend s) v (hooks s) (done s) (fin s).
+Definition set_hooks (s : shared) v := mkS (file s) (record s) (lkL s) (lkC s) (lkR s) (shape s) (rend s) (started s) v (done s) (fin s).
+Definition set_done (s : shared) v := mkS (file s) (record s) (lkL s) (lkC s) (lkR s) (shape s) (rend s) (started s) (hooks s) v (fin s).
+Definition set_fin (s : shared) v := mkS (file s) (record s) (lkL s) (lkC s) (lkR s) (shape s) (rend s) (started s) (hooks s) (done s) v.
 
 Definition set_prog ts p := mkT p (buf ts) (depth ts) (pend ts) (olog ts).
 Definition set_buf ts b := mkT (prog ts) b (depth ts) (pend ts) (olog ts).
@@ -117,6 +126,13 @@ Definition start_rest : list instr :=
 Definition stop_rest : list instr :=
   [ISetStarted false] ++ refresh_seq ++ [ICtl 2] ++ check_seq ++ [IPopHook; ICtl 1] ++ check_seq ++ [IResetShape].
 
+(* Live.stop() with auto_refresh: tell the refresh thread to finish, last refresh, clean up, release
+   the live lock -- and only then join the thread *)
+Definition stopa_rest (rt : tid) : list instr :=
+  [ISetStarted false; ISetDone] ++ refresh_seq ++ [ICtl 2] ++ check_seq ++ [IPopHook; ICtl 1] ++ check_seq
+  ++ [IResetShape; IRel LLive; IJoin rt].
+Definition tick_seq : list instr := [IAcq LLive; ICheckDone; IRel LLive; ILoop].
+
 Definition exec (rep : bool) (t : tid) (s : shared) (ts : tstate) (i : instr) : option (shared * tstate) :=
   (* ts already has the instruction removed from its program *)
   match i with
@@ -146,6 +162,12 @@ Definition exec (rep : bool) (t : tid) (s : shared) (ts : tstate) (i : instr) : 
   | IPushHook => Some (set_hooks s (S (hooks s)), ts)
   | IPopHook => match hooks s with O => None (* IndexError *) | S n => Some (set_hooks s n, ts) end
   | IResetShape => Some (set_shape s None, ts)
+  | ISetDone => Some (set_done s true, ts)
+  | IJoin t' => if existsb (Nat.eqb t') (fin s) then Some (s, ts) else None      (* blocked *)
+  | ILoop => if done s then Some (set_fin s (t :: fin s), ts)
+             else Some (s, set_prog ts (tick_seq ++ prog ts))
+  | ICheckDone => Some (s, if done s then ts else set_prog ts (refresh_seq ++ prog ts))
+  | IStopA rt => Some (s, set_prog ts ((if started s then stopa_rest rt else [IRel LLive]) ++ prog ts))
   end.
 
 Definition upd (f : tid -> tstate) (t : tid) (v : tstate) : tid -> tstate :=
@@ -179,7 +201,9 @@ Inductive op :=
 | Update (fid : Z) (h : nat) (refresh : bool)
 | Refresh                        (* live.refresh() *)
 | Tick                           (* one iteration of _RefreshThread.run *)
-| Start | Stop.
+| Start | Stop
+| StopAuto (rt : tid)            (* live.stop() of an auto-refreshing display; rt = its refresh thread *)
+| RefreshLoop.                   (* _RefreshThread.run *)
 
 Definition compile_op (o : op) : list instr :=
   match o with
@@ -193,12 +217,14 @@ Definition compile_op (o : op) : list instr :=
   | Tick => [IAcq LLive] ++ refresh_seq ++ [IRel LLive]
   | Start => [IAcq LLive; IStart; IRel LLive]
   | Stop => [IAcq LLive; IStop; IRel LLive]
+  | StopAuto rt => [IAcq LLive; IStopA rt]
+  | RefreshLoop => [ILoop]
   end.
 Definition compile (ops : list op) : list instr := flat_map compile_op ops.
 
 Definition init_t (p : list instr) : tstate := mkT p [] 0 [] [].
 Definition init_shared (live : bool) (sh0 : option nat) (r0 : Z * nat) : shared :=
-  mkS [] [] None None None sh0 r0 live (if live then 1%nat else 0%nat).
+  mkS [] [] None None None sh0 r0 live (if live then 1%nat else 0%nat) false [].
 Definition init_state (live : bool) (sh0 : option nat) (r0 : Z * nat) (progs : tid -> list op) : state :=
   mkSt (init_shared live sh0 r0) (fun t => init_t (compile (progs t))).
 
@@ -250,7 +276,8 @@ Definition screen_of (f : list (tid * list item)) : list row :=
   trim (rows (fold_left (fun s w => apply_write s (snd w)) f (mkScr [] 0 false))).
 
 (* ---- replay of an observed trace (tie 2): the visible events of the real run, in order *)
-Inductive vev := VAcq (l : lockid) | VRel (l : lockid) | VWrite (p : list item) | VHooksRd | VHooksWr.
+Inductive vev := VAcq (l : lockid) | VRel (l : lockid) | VWrite (p : list item) | VHooksRd | VHooksWr
+| VSetDone | VWait (b : bool) | VJoin.
 
 Definition item_eqb (a b : item) : bool :=
   match a, b with
@@ -270,7 +297,7 @@ Fixpoint list_eqb {A} (eq : A -> A -> bool) (a b : list A) : bool :=
 (* is the next instruction of this thread observable by the scheduler? *)
 Definition visible (ts : tstate) (i : instr) : bool :=
   match i with
-  | IAcq _ | IRel _ | IRdHooks _ | IPushHook | IPopHook => true
+  | IAcq _ | IRel _ | IRdHooks _ | IPushHook | IPopHook | ISetDone | ILoop | IJoin _ => true
   | IWrite => negb (is_nil (buf ts))
   | _ => false
   end.
@@ -280,6 +307,7 @@ Definition matches (ts : tstate) (i : instr) (e : vev) : bool :=
   | IWrite, VWrite p => list_eqb item_eqb (buf ts) p
   | IRdHooks _, VHooksRd => true
   | IPushHook, VHooksWr | IPopHook, VHooksWr => true
+  | ISetDone, VSetDone | ILoop, VWait _ | IJoin _, VJoin => true
   | _, _ => false
   end.
 
@@ -299,6 +327,7 @@ Definition replay1 (rep : bool) (st : state) (te : tid * vev) : option state :=
   let st1 := advance 200 rep st (fst te) in
   match prog (th st1 (fst te)) with
   | i :: _ => if visible (th st1 (fst te)) i && matches (th st1 (fst te)) i (snd te)
+                 && match snd te with VWait b => Bool.eqb b (done (sh st1)) | _ => true end
               then step rep st1 (fst te) else None
   | [] => None
   end.
